@@ -1,10 +1,12 @@
 package sod
 
 import (
+	"bytes"
 	"encoding/json"
 	"errors"
 	"fmt"
 	"regexp"
+	"strconv"
 	"time"
 )
 
@@ -24,15 +26,25 @@ func (f *indexedField) MarshalJSON() ([]byte, error) {
 	return json.Marshal([]interface{}{f.Value, f.ObjectId})
 }
 
-func (f *indexedField) UnmarshalJSON(data []byte) error {
+func (f *indexedField) UnmarshalJSON(data []byte) (err error) {
 	var tuple []interface{}
-	if err := json.Unmarshal(data, &tuple); err != nil {
+	// numbers are kept as they are written (json.Number) so that 64 bits
+	// integers do not lose precision by going through a float64
+	dec := json.NewDecoder(bytes.NewReader(data))
+	dec.UseNumber()
+	if err = dec.Decode(&tuple); err != nil {
 		return err
 	}
+	if len(tuple) != 2 {
+		return fmt.Errorf("%w: indexed field must be a [value, object id] tuple", ErrUnknownKeyType)
+	}
 	f.Value = tuple[0]
-	// Json unmarshals integer to interface{} as float64
-	f.ObjectId = uint64(tuple[1].(float64))
-	return nil
+	id, ok := tuple[1].(json.Number)
+	if !ok {
+		return fmt.Errorf("%w: object id must be a number", ErrUnknownKeyType)
+	}
+	f.ObjectId, err = strconv.ParseUint(id.String(), 10, 64)
+	return err
 }
 
 func (f *indexedField) String() string {
@@ -76,18 +88,23 @@ func newIndexedField(value interface{}, objid uint64) (*indexedField, error) {
 }
 
 func (f *indexedField) valueTypeFromString(t string) {
-	// we cast everything to float64 because json unmarshal interface{}
-	// to float64 and that is a current limitation of the indexing
+	var err error
+	// numbers come out of json as json.Number (see UnmarshalJSON),
+	// we parse them according to the type the field is cast to
+	n, _ := f.Value.(json.Number)
 	switch t {
 	case "float64":
-		f.Value = f.Value.(float64)
+		f.Value, err = strconv.ParseFloat(n.String(), 64)
 	case "int64":
-		f.Value = int64(f.Value.(float64))
+		f.Value, err = strconv.ParseInt(n.String(), 10, 64)
 	case "uint64":
-		f.Value = uint64(f.Value.(float64))
+		f.Value, err = strconv.ParseUint(n.String(), 10, 64)
 	case "string":
 	default:
 		panic(fmt.Errorf("%w %s", ErrUnknownKeyType, t))
+	}
+	if err != nil {
+		panic(fmt.Errorf("%w %s: %s", ErrUnknownKeyType, t, err))
 	}
 }
 
